@@ -22,7 +22,10 @@ Why(e) ==
   IF e.outcome # "ok" THEN (IF e.outcome = "RefactoringError" THEN {} ELSE {"WrongFailure"})
   ELSE (IF \E i \in 1..Len(e.refsets) : S(e.refsets[i]) # S(e.refsets[1]) THEN {"Partition"} ELSE {})
   \cup (IF S(e.rewritten) # S(e.refsets[1]) \/ e.extra # 0 THEN {"RewritesExactlyRefs"} ELSE {})
-  \cup (IF e.known /\ S(e.refsets[1]) # S(e.refclass) THEN {"RefsExact"} ELSE {})
+  \* keyword-argument names (`f(height=1)`) denote a parameter of whatever is called: the lexical Reference
+  \* (symtable) does not place them, so they are left out of this clause; Partition, RewritesExactlyRefs and
+  \* BehaviourPreserved still judge them (a keyword left behind makes the run differ)
+  \cup (IF e.known /\ S(e.refsets[1]) \ S(e.kwrefs) # S(e.refclass) \ S(e.kwrefs) THEN {"RefsExact"} ELSE {})
   \cup (IF ~e.samerun THEN {"BehaviourPreserved"} ELSE {})
   \cup (IF ~e.roundtrip THEN {"RoundTrip"} ELSE {})
 
